@@ -184,7 +184,12 @@ struct C06Script {
     frames: BTreeMap<u64, Vec<FrameSeen>>,
     /// Speculative runs: answers take 0..120 ms.
     slow_answers: bool,
+    exhaust_mode: bool,
+    fill_outstanding: u64,
 }
+
+/// Marker flag of the requests that fill a connection's stream-id space.
+const F_FILL: u64 = 1;
 
 impl Script for C06Script {
     fn on_user_request(&mut self, w: &mut World, rq: &ReqInfo, req: &Request) -> Reply {
@@ -201,6 +206,22 @@ impl Script for C06Script {
         let Some(m) = rq.marker else {
             return Reply::Default;
         };
+        if self.exhaust_mode {
+            // Exhaustion runs: the fill requests are never answered (their stream ids
+            // stay taken), everything else succeeds.
+            if m & F_FILL != 0 {
+                if rq.node == 0 {
+                    self.fill_outstanding += 1;
+                }
+                return Reply::NoReply;
+            }
+            self.frames.entry(m).or_default().push(FrameSeen {
+                node: rq.node,
+                consistency: cl,
+                outcome: AttemptOutcome::Success,
+            });
+            return Reply::DefaultAfter(w.think());
+        }
         // A quarter of the requests are "sticky" (every attempt gets the outcome of
         // the first one) and a quarter follow a two-outcome "pattern" (attempts
         // alternate between the first two outcomes), so that one-shot retry rules
@@ -328,9 +349,13 @@ struct Plan {
     /// exactly as the retry policy decides. Idempotent requests are not judged in such
     /// runs (speculative copies are not retry decisions).
     speculative: bool,
+    /// Rare: every stream id of the connection to the replica is taken; the attempt at
+    /// it fails locally ("no free stream id") and the retry policy decides what follows.
+    exhaust: bool,
 }
 
 pub fn run(req: &RunRequest) -> Value {
+    let thorough = req.tier == "thorough";
     run_sim(req, move || {
         let plan = Plan {
             nodes: tape::range("c06:nodes", 2, 6) as usize,
@@ -338,12 +363,24 @@ pub fn run(req: &RunRequest) -> Value {
             concurrent: tape::chance("c06:concurrent", 1, 3),
             success_weight: [2, 6, 20][tape::choose("c06:success_weight", 3) as usize],
             speculative: tape::chance("c06:speculative", 1, 5),
+            exhaust: tape::chance("c06:exhaust", if thorough { 10 } else { 2 }, 1000),
         };
+        let mut plan = plan;
+        if std::env::var("VERIF_C06_EXHAUST").is_ok() {
+            plan.exhaust = true; // manual testing only
+        }
+        if plan.exhaust {
+            plan.nodes = 2;
+            plan.speculative = false;
+            plan.concurrent = false;
+        }
+        let plan = plan;
         let mut cluster = Cluster::new("c06");
         for i in 0..plan.nodes {
             cluster.add_node("dc1", "r1", 0, vec![(i as i64) * 1000 - 2500]);
         }
-        client::standard_catalog(&mut cluster, Strategy::Simple(plan.nodes.min(3)), false);
+        // Exhaustion runs: one replica per key, so that the plan starts at a known node.
+        client::standard_catalog(&mut cluster, Strategy::Simple(if plan.exhaust { 1 } else { plan.nodes.min(3) }), false);
         cluster.think_min = 0;
         cluster.think_max = 3 * MS;
         let net = NetCfg {
@@ -380,15 +417,17 @@ async fn main(plan: Plan) -> Outcome {
             success_weight: plan.success_weight,
             rst: !plan.concurrent,
             slow_answers: plan.speculative,
+            exhaust_mode: plan.exhaust,
             ..Default::default()
         }));
     }
     let cfg = SessionCfg {
         contact_nodes: vec![0],
-        pool: PoolSize::PerHost(NonZeroUsize::new(tape::range("c06:pool", 1, 2) as usize).unwrap()),
+        pool: PoolSize::PerHost(NonZeroUsize::new(if plan.exhaust { 1 } else { tape::range("c06:pool", 1, 2) as usize }).unwrap()),
         retry: Some(Arc::new(FallthroughRetryPolicy)),
-        keepalive_interval: Some(Duration::from_secs(1)),
-        keepalive_timeout: Some(Duration::from_secs(2)),
+        fetch_schema: plan.exhaust, // token-aware routing needs the keyspace's replication
+        keepalive_interval: if plan.exhaust { None } else { Some(Duration::from_secs(1)) },
+        keepalive_timeout: if plan.exhaust { None } else { Some(Duration::from_secs(2)) },
         ..SessionCfg::default()
     };
     let mut cfg = cfg;
@@ -421,6 +460,9 @@ async fn main(plan: Plan) -> Outcome {
         out.inconclusive = Some("prepare failed".into());
         return out;
     };
+    if plan.exhaust {
+        return exhaustion(out, session, p_select).await;
+    }
 
     let mut specs = Vec::new();
     for i in 0..plan.requests {
@@ -673,5 +715,133 @@ async fn main(plan: Plan) -> Outcome {
     out.count("requests_retried", retried);
     out.count("frames", total_frames);
     out.sample = json!({"nodes": plan.nodes, "requests": plan.requests, "concurrent": plan.concurrent, "histories": sample_hist});
+    out
+}
+
+
+/// Exhaustion runs. All 32768 stream ids of the (only) connection to the replica of a
+/// key are taken by requests the node never answers. A probe for that key then fails
+/// locally at its first target ("no free stream id"), and what happens next is the
+/// retry policy's decision: the default and downgrading policies move on to the next
+/// target (the failure proves the request was not sent) - except that the default
+/// policy never retries at serial consistency - and the fall-through policy gives up.
+/// The other node answers every probe successfully, so a probe has exactly one frame
+/// if its first decision was a retry and none otherwise.
+async fn exhaustion(mut out: Outcome, session: Arc<scylla::client::session::Session>, p_select: scylla::statement::prepared::PreparedStatement) -> Outcome {
+    let frames_of = |m: u64| -> Vec<FrameSeen> {
+        let mut w = world::world();
+        let mut s = w.script.take().unwrap();
+        let f = s.as_any().downcast_mut::<C06Script>().unwrap().frames.get(&m).cloned().unwrap_or_default();
+        w.script = Some(s);
+        f
+    };
+    // A key whose first target is node 0.
+    let mut pk: Option<i64> = None;
+    for cand in 0..40i64 {
+        let m = (900_000 + cand as u64) * 16;
+        let mut p = p_select.clone();
+        p.set_is_idempotent(true);
+        if session.execute_unpaged(&p, (cand, m as i64)).await.is_err() {
+            continue;
+        }
+        if frames_of(m).first().map(|f| f.node) == Some(0) {
+            pk = Some(cand);
+            break;
+        }
+    }
+    let Some(pk) = pk else {
+        out.inconclusive = Some("no key routed to node 0".into());
+        return out;
+    };
+    const FILL: usize = 32768 + 64;
+    let mut handles = Vec::with_capacity(FILL);
+    for i in 0..FILL {
+        let m = (i as u64 + 10) * 16 + F_FILL;
+        let session = session.clone();
+        let mut p = p_select.clone();
+        p.set_is_idempotent(false);
+        handles.push(tokio::spawn(async move {
+            let _ = session.execute_unpaged(&p, (pk, m as i64)).await;
+        }));
+    }
+    world::sleep_ns(500 * MS).await;
+    let filled = {
+        let mut w = world::world();
+        let mut s = w.script.take().unwrap();
+        let n = s.as_any().downcast_mut::<C06Script>().unwrap().fill_outstanding;
+        w.script = Some(s);
+        n
+    };
+    out.count("exhaustion_fill_outstanding", filled);
+    if filled < 32768 {
+        out.inconclusive = Some(format!("only {filled} fill requests reached the replica"));
+        for h in handles {
+            h.abort();
+        }
+        return out;
+    }
+    let mut judged = 0u64;
+    for i in 0..tape::range("c06:exhaust_probes", 4, 16) {
+        let m = (800_000 + i) * 16;
+        let idempotent = tape::chance("c06:idempotent", 1, 2);
+        let policy = [Policy::Default, Policy::Downgrading, Policy::Fallthrough][tape::weighted("c06:policy", &[3, 3, 2])];
+        let consistency = CONSISTENCIES[tape::weighted("c06:cl", &[3, 2, 1, 1, 1, 1, 1, 1])];
+        let log: Arc<Mutex<Vec<Decision>>> = Arc::new(Mutex::new(Vec::new()));
+        let inner: Arc<dyn RetryPolicy> = match policy {
+            Policy::Default => Arc::new(DefaultRetryPolicy::new()),
+            Policy::Downgrading => Arc::new(DowngradingConsistencyRetryPolicy::new()),
+            Policy::Fallthrough => Arc::new(FallthroughRetryPolicy),
+        };
+        let mut p = p_select.clone();
+        p.set_is_idempotent(idempotent);
+        p.set_consistency(consistency);
+        p.set_retry_policy(Some(Arc::new(RecPolicy { inner, log: log.clone() })));
+        let res = match tokio::time::timeout(Duration::from_secs(120), session.execute_unpaged(&p, (pk, m as i64))).await {
+            Ok(r) => r.map(|_| ()).map_err(|e| client::short_err(&e)),
+            Err(_) => {
+                out.violation("c06.hang", format!("probe marker {m} did not return within 120 virtual s with every stream id of the replica's connection taken"));
+                break;
+            }
+        };
+        world::sleep_ns(20 * MS).await;
+        let frames = frames_of(m);
+        let decisions = log.lock().unwrap().clone();
+        let ctx = format!(
+            "probe marker {m} idempotent={idempotent} policy={policy:?} cl={consistency:?} result={res:?} frames={:?} decisions={:?} (every stream id of the connection to the replica, node 0, is taken)",
+            frames.iter().map(|f| f.node).collect::<Vec<_>>(),
+            decisions.iter().map(|d| (d.error.chars().take(60).collect::<String>(), format!("{:?}", d.decision))).collect::<Vec<_>>()
+        );
+        judged += 1;
+        if frames.iter().any(|f| f.node == 0) {
+            out.violation("c06.exhaustion_model", format!("a probe reached node 0 although its connection has no free stream id: {ctx}"));
+            continue;
+        }
+        let first_retry = decisions
+            .first()
+            .map(|d| matches!(d.decision, RetryDecision::RetrySameTarget(_) | RetryDecision::RetryNextTarget(_)))
+            .unwrap_or(false);
+        // Exactly the attempts the policy decided.
+        if !first_retry && !frames.is_empty() {
+            out.violation("c06.attempt_without_decision", format!("the request was sent to another node although the policy did not decide to retry: {ctx}"));
+        }
+        if first_retry && frames.is_empty() {
+            out.violation("c06.more_attempts_than_decided", format!("the policy decided to retry but nothing was sent: {ctx}"));
+        }
+        if policy == Policy::Fallthrough && !frames.is_empty() {
+            out.violation("c06.fallthrough_retried", ctx.clone());
+        }
+        if policy == Policy::Default && matches!(consistency, Consistency::Serial | Consistency::LocalSerial) && !frames.is_empty() {
+            out.violation("c06.default_serial_retried", ctx.clone());
+        }
+        if res.is_ok() != !frames.is_empty() {
+            out.violation("c06.error_reported_as_success", format!("outcome does not match the attempts: {ctx}"));
+        }
+    }
+    for h in handles {
+        h.abort();
+    }
+    out.nontrivial = judged > 0;
+    out.count("exhaustion_probes_judged", judged);
+    out.sample = json!({"mode": "stream-id exhaustion", "fill_outstanding": filled, "probes": judged});
     out
 }
